@@ -16,7 +16,7 @@ for d in dirs:
         print(name, 'APPLY FAILED', r.stderr[:200]); continue
     t0 = time.time()
     try:
-        c = sh(f'cd /verif && ./check {pid} quick', timeout=900)
+        c = sh(f'cd /verif && PTV_NO_EVIDENCE=1 ./check {pid} quick', timeout=900)
         out, code = c.stdout, c.returncode
     except subprocess.TimeoutExpired:
         out, code = 'TIMEOUT', 2
